@@ -21,7 +21,10 @@
 //   feplan <cat> <n> <N> <maxThreads> <wait> <exec>     cat ra|bi|fw
 //      -> "feplan n  cnt who ... | nsched S nwaits W"    per element: call count, runner (-1 caller pre-wait, -2 caller post-wait, j closure)
 //   pi <N> <cost> <shape>       shape = arities per level separated by ',' e.g. 3,2,2 ; leaves below the last level;
-//                               or L<d> / R<d> = left / right comb of depth d (arity 2)
+//                               or L<d> / R<d> = left / right comb of depth d (arity 2), Z<d> = zigzag comb;
+//                               optional 4th argument 1 = forced overload (4N+2 blocker tasks parked on a latch);
+//                               cost heavy|light = TaskCost::kHeavy | kLightweight ConcurrentTaskSet
+//                               (parallel_invoke only accepts a ConcurrentTaskSet&)
 //      -> "pi nodes M  (kind parentIdx childPos arity cnt dec depth pdepth lastok) ..."   nodes in preorder
 #include <algorithm>
 #include <atomic>
@@ -453,10 +456,29 @@ static int buildComb(int depth, bool left, int parent, int pos) {
   return idx;
 }
 
+// zigzag comb of `depth` levels: the recursion goes through the FIRST (scheduled) functor on even levels and through the
+// LAST (direct) functor on odd levels, so the inline depth grows by one every two levels
+static int buildZig(int depth, int level, int parent, int pos) {
+  int idx = static_cast<int>(g_nodes.size());
+  g_nodes.emplace_back(new Node());
+  g_nodes[idx]->parent = parent;
+  g_nodes[idx]->pos = pos;
+  if (depth > 0) {
+    g_nodes[idx]->arity = 2;
+    bool left = (level % 2) == 0;
+    int k0 = left ? buildZig(depth - 1, level + 1, idx, 0) : buildZig(0, level + 1, idx, 0);
+    int k1 = left ? buildZig(0, level + 1, idx, 1) : buildZig(depth - 1, level + 1, idx, 1);
+    g_nodes[idx]->kids.push_back(k0);
+    g_nodes[idx]->kids.push_back(k1);
+  }
+  return idx;
+}
+
 static void runPi(std::istringstream& in) {
-  int N;
+  int N, overload = 0;
   std::string cost, shapeS;
   in >> N >> cost >> shapeS;
+  in >> overload;
   std::vector<int> shape;
   {
     std::istringstream sh(shapeS);
@@ -471,20 +493,36 @@ static void runPi(std::istringstream& in) {
   g_nodes.clear();
   if (shapeS[0] == 'L' || shapeS[0] == 'R') {
     buildComb(atoi(shapeS.c_str() + 1), shapeS[0] == 'L', -1, 0);
+  } else if (shapeS[0] == 'Z') {
+    buildZig(atoi(shapeS.c_str() + 1), 0, -1, 0);
   } else {
     buildTree(shape, 0, -1, 0);
   }
   dispenso::ThreadPool& pool = poolFor(N);
+  std::atomic<int> release{0};
+  int nblock = 0;
   {
     dispenso::ConcurrentTaskSet tasks(pool, cost == "light" ? dispenso::TaskCost::kLightweight : dispenso::TaskCost::kHeavy);
+    // forced overload: blocker tasks parked on a latch keep outstandingTaskCount_ above every load factor
+    // (kLightweight: 4 * numThreads, kHeavy: max(numThreads + 1, 2 * numThreads)) while the program tree is submitted.
+    // (A zero-thread pool runs force-queued tasks at once, so it gets no blockers; it is overloaded by nesting alone.)
+    nblock = (overload && N > 0) ? 4 * N + 2 : 0;
+    for (int i = 0; i < nblock; ++i) {
+      tasks.schedule(
+          [&release]() {
+            while (!release.load()) std::this_thread::sleep_for(std::chrono::microseconds(100));
+          },
+          dispenso::ForceQueuingTag());
+    }
     tl_inCall = -1;
     runNode(tasks, 0, std::this_thread::get_id(), -1);
+    release.store(1);
     tasks.wait();
   }
   printf("pi %zu ", g_nodes.size());
   for (auto& n : g_nodes)
     printf(" %d %d %d %d %d %d %d %d", n->parent, n->pos, n->arity, n->cnt.load(), n->dec, n->depth, n->pdepth, n->lastok);
-  printf("\n");
+  printf(" | blockers %d\n", nblock);
   g_nodes.clear();
 }
 
